@@ -75,6 +75,10 @@ func ActionResult(ar *pb.ActionResult) error {
 		if err != nil {
 			return fmt.Errorf("invalid TreeDigest for path %q: %w", d.Path, err)
 		}
+		err = maybeNilDigest(d.RootDirectoryDigest)
+		if err != nil {
+			return fmt.Errorf("invalid RootDirectoryDigest for path %q: %w", d.Path, err)
+		}
 	}
 
 	//nolint:staticcheck // validate deprecated field without giving lint errors
